@@ -410,7 +410,7 @@ def run_case(case, ctx):
 # MANIFEST-BEGIN
 MANIFEST = {
     'technique': 'differential + reference-model monitor: the same generated circuit compiled with vectorize=True/False, both vector fields and Euler trajectories compared per frontend variable with the independent reference; slot-allocation (M-vec) and edge-conservation (M-edge) hooks inside the compile',
-    'level_text': 'Every generated circuit (several structurally identical nodes per type, unique per-node initial values, equal or different constants, sparse-to-dense edge patterns around the matrix_sparseness threshold, self-connections, fan-in from several types) is compiled both ways; derivatives at random states with perturbed parameters and 12-step Euler trajectories of every state variable are compared with the reference semantics (1e-8 / 1e-7), positions found by value fingerprinting; cache_func slot ranges must be disjoint and contiguous and all connections must reach the edge-equation generator exactly once. Further families: edges through EdgeTemplates whose instances share one vectorized edge node across several projection groups, and wide groups (11-16 nodes of one type, around the size thresholds of the index-based and matrix edge forms). An edge-weight conservation monitor requires every declared weight (any magnitude, e.g. 1e-9) among the returned in_edge weight arguments; bundles use mixed or uniformly tiny weights; two-input edge templates map their second input to a variable of the target node by explicit path. Edges of weight exactly 1.0 are sometimes declared without a weight attribute; wide groups use interior-scrambled one-to-one wiring. Gamma-kernel families: a structural monitor on the emitted chain equations requires one chain per (source, kernel) actually declared, so that a merged or dropped chain is seen even where an open finding masks the values. Held on observed circuits only.',
+    'level_text': 'Every generated circuit (several structurally identical nodes per type, unique per-node initial values, equal or different constants, sparse-to-dense edge patterns around the matrix_sparseness threshold, self-connections, fan-in from several types) is compiled both ways; derivatives at random states with perturbed parameters and 12-step Euler trajectories of every state variable are compared with the reference semantics (1e-8 / 1e-7), positions found by value fingerprinting; cache_func slot ranges must be disjoint and contiguous and all connections must reach the edge-equation generator exactly once. Further families: edges through EdgeTemplates whose instances share one vectorized edge node across several projection groups, and wide groups (11-16 nodes of one type, around the size thresholds of the index-based and matrix edge forms). An edge-weight conservation monitor requires every declared weight (any magnitude, e.g. 1e-9) among the returned in_edge weight arguments; bundles use mixed or uniformly tiny weights; two-input edge templates map their second input to a variable of the target node by explicit path. Edges of weight exactly 1.0 are sometimes declared without a weight attribute; wide groups use interior-scrambled one-to-one wiring. Gamma-kernel families: a structural monitor on the emitted chain equations requires one chain per (source, kernel) actually declared, so that a merged or dropped chain is seen even where an open finding masks the values. Constants may be declared with an integer default and receive their only fractional value on the last node of a group; a family uses node types that share one operator template. Held on observed circuits only.',
     'level_note': 'Trusted: vp/ref.py, value fingerprinting (all initial values unique per model). Risk features of open findings are excluded from the main sweep and run as probe families.',
 }
 # MANIFEST-END
